@@ -74,6 +74,9 @@ pub fn numbers() -> Vec<Value> {
         fl(18446744073709551616.0), fl(1e19), fl(1e10), fl(4294967296.0), int(4294967296), fl(-9223372036854777856.0),
         fl(123456.789), fl(0.30000000000000004), fl(4.35), fl(8.41e21), fl(2.2250738585072014e-308), int(7), int(-7),
         int(255), fl(3.0), fl(1e2), int(42),
+        // around the places where number text changes shape (plain digits / exponent form)
+        fl(1e17), fl(1.5e17), fl(123456789012345680000.0), fl(9.999999999999999e20), fl(1e20), fl(12345678901234567.0), fl(9999999999999998.0),
+        fl(1e-4), fl(0.00001234), fl(1.234e-7), fl(1e22),
     ];
     v.dedup();
     v
@@ -88,6 +91,8 @@ pub fn strings() -> Vec<&'static str> {
         "false", "null", "é", "日本", "😀", "héllo", "10", "9", "2", "1.5", "1.", "5.e3", "2.E2", "-.5", "+.5e-2",
         "1e400", "-1e400", "1e-400", "123456789012345678901234567890", "0.1", "0.30000000000000004", "9007199254740993",
         "0xfffffffffffffffff", "0x20000000000001", "0b1111111111111111111111111111111111111111111111111111111", "00",
+        "1e16", "1e+16", "10000000000000000", "1.5e17", "150000000000000000", "1,1e16", "1,10000000000000000", "123456789012345680000", "1.2345678901234568e20",
+        "1e-7", "0.0000001", "1e19", "10000000000000000000", "1e21", "1e+21",
         "007", "1 2", "--1", "+-1", "1e1e1", "1..2", ".e3", "٣", "１", " ", "\n", "x1", "1x", "1,", ",",
         "-", "+", "var", "==", "a.b", "a\\.b", "0.0", "-0.0", "1e21", "1e-7",
     ]
@@ -100,7 +105,8 @@ pub fn arrays() -> Vec<Value> {
         json!([9]), json!([true]), json!([[1]]), json!([null, 1]), json!(["0x10"]), json!([1, [2, [3]]]),
         Value::Array(vec![fl(-0.0)]), Value::Array(vec![fl(1.0)]), json!(["a"]), json!([[], []]), json!([false]),
         Value::Array(vec![fl(1e21)]), json!(["Infinity"]), json!([1, []]), json!([[], "a", []]), json!([[[]], "x"]), json!([1, [], 2]), json!([1, 2, 3]),
-        json!([true, false]), json!([[1, 5]]), json!(["3px", 5]),
+        json!([true, false]), json!([[1, 5]]), json!(["3px", 5]), Value::Array(vec![fl(1e16)]), Value::Array(vec![fl(1.5e17)]), Value::Array(vec![int(1), fl(1e16)]),
+        Value::Array(vec![fl(123456789012345680000.0)]), Value::Array(vec![fl(1e-7)]), Value::Array(vec![fl(1e19)]), Value::Array(vec![fl(-1.5e20)]),
     ]
 }
 
